@@ -172,6 +172,10 @@ struct C05 : Harness {
         if (total > 256) st.count("stream>256B");
         if (bystanders) st.count("with-bystander-objects");
         { size_t ncalls = 0; for (auto &op : p) if (op.name.find(".encrypt") != std::string::npos) ++ncalls; if (ncalls >= 256) st.count("calls>=256-on-one-object"); }
+        // crossed with cipher flavour and back end (the statement quantifies over both)
+        for (auto &pr : std::vector<std::pair<bool, const char *>>{{default_ctr, "default-counter"}, {short_ctr, "short-counter"}, {null_ctr, "null-counter"}, {carry2, "carry>=2bytes"},
+                 {wrap, "wrap-around"}, {ragged, "ragged-batch-crossing"}, {zero_call, "zero-length-call"}, {inplace, "in-place"}, {odd_place, "odd-placement"}, {total > 256, "stream>256B"}, {bystanders, "with-bystander-objects"}})
+            if (pr.first) st.count("cell/" + kb + "/" + pr.second);
         bool nt = ragged || carry2 || wrap || default_ctr || short_ctr || null_ctr;
         st.case_done(ser(p), nt);
     }
